@@ -81,6 +81,10 @@ def gen_C15(rng, tier):
         b = rnd_bytes(rng, n)
         out.append(('swap ' + hexb(b), 'swap'))
         out.append(('fromle ' + hexb(b), 'fromle/len%d' % min(n, 33)))
+        if n % 7 == 0:
+            out.append(('fromledirty ' + hexb(b), 'fromle/dirty-destination'))
+            out.append(('fromledirty ' + hexb(bytes(n)), 'fromle/dirty-destination/all-zero'))
+            out.append(('fromledirty ' + hexb(b[:n // 2] + bytes(n - n // 2)), 'fromle/dirty-destination/trailing-zeros'))
         out.append(('hexenc ' + hexb(b), 'hexenc'))
         out.append(('hexstr ' + hexb(b), 'hexstr'))
     for v in boundary_ints() + [2**255, 2**256 - 1, 2**256, 2**256 + 1, 2**300, -1, -2**256, Q, L] + \
@@ -255,6 +259,13 @@ def gen_C13(rng, tier):
     for P in [(0, 0), (1, 1), (0, 1), (0, Q - 1), (Q - 1, Q - 1)] + [(rng.randrange(Q), rng.randrange(Q)) for _ in range(10)]:
         out.append(('incurve %d %d' % P, 'incurve/random-or-special'))
         out.append(('insub %d %d' % P, 'insub/random-or-special'))
+    # off-curve points that agree with a point of small order in all but one 64-bit limb
+    for (x0, y0) in small_pts():
+        for k in (1, 2, 3):
+            for (dx, dy) in ((0, 1 << (64 * k)), (1 << (64 * k), 0)):
+                P2 = ((x0 + dx) % Q, (y0 + dy) % Q)
+                out.append(('incurve %d %d' % P2, 'incurve/one-limb-off-small-order'))
+                out.append(('insub %d %d' % P2, 'insub/one-limb-off-small-order'))
     # non-canonical coordinates (outside the property's domain, still compared with the model)
     for P in pts[:4]:
         out.append(('incurve %d %d' % (P[0] + Q, P[1]), 'incurve/noncanonical'))
@@ -402,6 +413,15 @@ def gen_C01(rng, tier):
                     tgt[pos] = rng.choice([0, 0, 1] + mont_special()[:3])
                 st = invert_first_half(Q, 5, n + 1, tb['C'], tb['M'], tb['P'], tgt)
                 out.append(('poseidon %d %d %s' % (st[0], rng.choice([1, n + 1]), lst(st[1:])), 'HashWithStateEx/partial-round-special/t=%d' % (n + 1)))
+            # ... and so that lane 0 AFTER the S-box and the round constant of the first partial
+            # round is 0 / 1 / Montgomery-special (the value that is spread by the sparse matrix)
+            d5 = pow(5, -1, Q - 1)
+            cp0 = tb['C'][5 * (n + 1)]
+            for spv in ([0, 1] if tier == 'quick' else [0, 1, Q - 1] + mont_special()[:3]):
+                tgt = [rng.randrange(Q) for _ in range(n + 1)]
+                tgt[0] = pow((spv - cp0) % Q, d5, Q)
+                st = invert_first_half(Q, 5, n + 1, tb['C'], tb['M'], tb['P'], tgt)
+                out.append(('poseidon %d %d %s' % (st[0], rng.choice([1, n + 1]), lst(st[1:])), 'HashWithStateEx/sparse-step-special-lane0/t=%d' % (n + 1)))
         except (OSError, StopIteration, KeyError):
             pass
         for v in vecs:
@@ -492,6 +512,13 @@ def gen_C10(rng, tier):
             out.append(('gold ' + lst(st), 'partial-round-special-lane'))
         z = invert_first_half(PG, 7, 12, [x % PG for x in tb['c']], Mg, [[x % PG for x in r] for r in tb['p']], [0] * 12)
         out.append(('gold ' + lst(z), 'partial-round-all-zero'))
+        d7 = pow(7, -1, PG - 1)
+        cp0 = tb['c'][5 * 12] % PG
+        for spv in (0, 1, PG - 1, 2**32 - 1, 2**32):
+            tgt = [rng.randrange(PG) for _ in range(12)]
+            tgt[0] = pow((spv - cp0) % PG, d7, PG)
+            st = invert_first_half(PG, 7, 12, [x % PG for x in tb['c']], Mg, [[x % PG for x in r] for r in tb['p']], tgt)
+            out.append(('gold ' + lst(st), 'sparse-step-special-lane0'))
     except (OSError, StopIteration, KeyError):
         pass
     for _ in range(reps):
@@ -593,6 +620,31 @@ def gen_C05(rng, tier):
         e = rng.choice([0, 1, 2, 3, 5, Q - 1, Q - 2, Q, 2**256, rng.randrange(2**rng.randrange(1, 300)),
                         2 * (Q - 1), (Q - 1) << 64, (Q - 1) ** 2, 3 * (Q - 1) + 1, 5 * (Q - 1) - 1, Q * (Q - 1), 2**254, 2**255 - 1, 2**512 - 1])
         out.append(('ff asm exp %d %d' % (x, e), 'exp' + ('/e=0' if e == 0 else '/e>=2^256' if e >= 2**256 else '')))
+    # a distinct destination that already holds a non-zero value (every op must overwrite it fully)
+    for x in rng.sample(vals, min(len(vals), 10)) + [0, ff_mont(1)]:
+        y = rng.choice(vals)
+        for op in ('add', 'sub', 'mul', 'div'):
+            out.append(('ff asm %s 5 %d %d' % (op, x, y), '%s/dirty-destination' % op))
+        out.append(('ff asm div 5 %d 0' % x, 'div/by-zero/dirty-destination'))
+        for op in ('neg', 'double', 'square', 'inverse'):
+            out.append(('ff asm %s 2 %d' % (op, x), '%s/dirty-destination' % op))
+        out.append(('ff gen add 5 %d %d' % (x, y), 'gen/add/dirty-destination'))
+        out.append(('ff gen neg 2 %d' % x, 'gen/neg/dirty-destination'))
+    # Inverse walks u, v through small and sparse values: operands whose stored limbs are all in
+    # {0, 1} or a single power of two (exit tests and limb-wise comparisons of the binary GCD)
+    sparse = [sum(b << (64 * i) for i, b in enumerate(bits)) for bits in
+              [(1, 1, 0, 0), (1, 0, 1, 0), (1, 0, 0, 1), (0, 1, 1, 0), (1, 1, 1, 1), (0, 1, 0, 0), (0, 0, 1, 0), (0, 0, 0, 1), (2, 2, 0, 0), (1, 1, 1, 0)]]
+    sparse += [1 << k for k in (1, 63, 64, 65, 127, 128, 191, 192, 250)] + [(1 << 64) + 1, (1 << 128) + 1, (1 << 192) + 1]
+    for P in (2**64, 2**128, 2**192):
+        for k in (1, 2, 5, 17):
+            v = (2**k * P + Q) // (2**k + 1)
+            if (2**k * P + Q) % (2**k + 1) == 0 and v < Q:
+                sparse.append(v)
+    for x in sparse:
+        if 0 < x < Q:
+            out.append(('ff asm inverse %d %d' % (rng.choice([0, 1, 2]), x), 'inverse/sparse-limbs'))
+            out.append(('ff asm div 0 %d %d' % (rng.choice(vals), x), 'div/sparse-divisor'))
+            out.append(('ff asm inverse 0 %d' % ff_mont(x), 'inverse/sparse-value'))
     # the statement's special cases, always present: zero divisor (also as destination, also 0/0,
     # also x and y one object), exponent 0 (also of 0), on both assembly configurations
     nz0 = [v for v in vals if v != 0]
@@ -664,6 +716,13 @@ def gen_C09(rng, tier):
         out.append(('ffg setuint64 %d' % v, 'setuint64/' + ('>=p' if v >= PG else '<p')))
     for x in cls[:6] + [rng.randrange(PG) for _ in range(3)]:
         out.append(('ffg butterflyalias %d' % x, 'butterfly/a==b'))
+    for x in cls + [rng.randrange(PG) for _ in range(4)]:
+        y = rng.choice(cls)
+        for op in ('add', 'sub', 'mul', 'div'):
+            out.append(('ffg %s 5 %d %d' % (op, x, y), '%s/dirty-destination' % op))
+        out.append(('ffg div 5 %d 0' % x, 'div/by-zero/dirty-destination'))
+        for op in ('neg', 'double', 'square', 'inverse'):
+            out.append(('ffg %s 2 %d' % (op, x), '%s/dirty-destination' % op))
     nzc = [v for v in cls if v != 0]
     for al in (0, 1, 2):
         out.append(('ffg div %d %d 0' % (al, rng.choice(nzc)), 'div/by-zero/alias%d' % al))
